@@ -32,26 +32,26 @@ structure Cell where
   ref : Str
   refPath : Option (Str × Str)
   val : Int
-  deriving Repr, Inhabited
+  deriving Repr, Inhabited, DecidableEq
 
 structure MT where
   schema : Int
   ex : List Nat
   enc : List (List Nat)
-  deriving Repr, Inhabited
+  deriving Repr, Inhabited, DecidableEq
 
 structure Op where
   rb : Int
   cbs : List Nat
   resps : List Nat
   params : List Nat
-  deriving Repr, Inhabited
+  deriving Repr, Inhabited, DecidableEq
 
 structure PI where
   ref : Str
   params : List Nat
   ops : List Op
-  deriving Repr, Inhabited
+  deriving Repr, Inhabited, DecidableEq
 
 structure Val where
   t : String
@@ -64,7 +64,7 @@ structure Val where
   items : List Nat
   pex : List Nat
   dmap : List (Str × Nat)   -- discriminator mapping entries (text, oneOf child cell whose $ref equalled the text when loaded)
-  deriving Repr, Inhabited
+  deriving Repr, Inhabited, DecidableEq
 
 structure Heap where
   root : Option Str
@@ -75,7 +75,7 @@ structure Heap where
   pis : Array PI
   comps : List (Str × Str × Nat)   -- (collection, name, cell); within a collection sorted by name
   paths : List Nat
-  deriving Repr, Inhabited
+  deriving Repr, Inhabited, DecidableEq
 
 /-- a component entry of the evolving document: an original cell, or a fresh `&XRef{Value: v}` made by add*ToSpec -/
 inductive Comp
@@ -151,8 +151,10 @@ def compsOf (s : St) (k : Str) : List (Str × Comp) := (s.comps.filter (·.1 == 
 
 def lookup (s : St) (k name : Str) : Option Comp := (s.comps.find? (keyIs k name)).map (·.2.2)
 
-def setCompL (l : List (Str × Str × Comp)) (k name : Str) (c : Comp) : List (Str × Str × Comp) :=
-  if l.any (keyIs k name) then l.map (fun e => if keyIs k name e then (k, name, c) else e) else l ++ [(k, name, c)]
+/-- `doc.Components.<K>[name] = entry`: replace the entry of that name, or append a new one (names are unique per collection) -/
+def setCompL : List (Str × Str × Comp) → Str → Str → Comp → List (Str × Str × Comp)
+  | [], k, name, c => [(k, name, c)]
+  | e :: l, k, name, c => if keyIs k name e then (k, name, c) :: l else e :: setCompL l k name c
 
 variable (h : Heap)
 
@@ -453,7 +455,7 @@ def internalizeM (n : Nat) : M Unit := do
 def budget : Nat := 200 + 16 * (h.cells.size + h.vals.size + h.pis.size)
 
 def initSt : St :=
-  { refs := h.cells.map (·.ref), pirefs := h.pis.map (·.ref),
+  { refs := (h.cells.toList.map (·.ref)).toArray, pirefs := (h.pis.toList.map (·.ref)).toArray,
     comps := h.comps.map fun (k, n, c) => (k, n, Comp.cell c),
     visS := [], visH := [], visP := [], steps := budget h, log := [], ambiguous := false, hasComp := h.hasComp, flags := [] }
 
@@ -472,7 +474,7 @@ def internalize : Outcome :=
 -- ---------------------------------------------------------------- the property on the final state
 
 /-- the text a cell had when the document was loaded -/
-def origRef (c : Nat) : Str := (h.cells.map (·.ref))[c]!
+def origRef (c : Nat) : Str := ((h.cells.toList.map (·.ref)).toArray)[c]!
 
 /-- what a reference text designates in the final document: follow `#/components/<k>/<name>` through the final
 components (`own` = the value a cell with an empty text holds itself) -/
@@ -569,7 +571,7 @@ def InlinedCycle (s : St) : Bool := !finiteB h s
 
 /-- F-C16-10: a reference the loader left without value or without RefPath although the document loaded (no POSITION is
 left unvisited since cbb0d05; what remains are the loader's text-keyed visited table and foreign-context walks, C02) -/
-def Unresolved : Bool := h.cells.any fun c => !c.ref.isEmpty && (c.val < 0 || c.refPath.isNone)
+def Unresolved : Bool := h.cells.toList.any fun c => !c.ref.isEmpty && (c.val < 0 || c.refPath.isNone)
 
 /-- a reachable path item the descent did not inline -/
 def PathItemLeft (s : St) : Bool := !pisOK h s
@@ -577,6 +579,14 @@ def PathItemLeft (s : St) : Bool := !pisOK h s
 def EmptyName (s : St) : Bool := !namesOK s && h.validBefore
 
 /-- collection names contain no slash (they are the nine fixed names) -/
-def kindsPlain : Bool := h.cells.all fun c => !c.k.contains '/'
+def kindsPlain : Bool := h.cells.toList.all fun c => !c.k.contains '/'
+
+/-- the hypotheses of `spec_holds_partial` (Props/C16.lean): none of the exclusion predicates holds -/
+def hypsB (s : St) : Bool :=
+  kindsPlain h && !NameCollision s && !SelfRefComponent h s && !StaleInternalRef h s && !UnwalkedExample h s &&
+  !DiscriminatorMapping h s && !InlinedCycle h s && !Unresolved h && !PathItemLeft h s && !EmptyName h s
+
+/-- a predicate on the final state of a finished run (false when the run panics or runs out of fuel) -/
+def doneB (p : St → Bool) : Bool := match internalize h with | .done s => p s | _ => false
 
 end KinModel.Internalize
